@@ -3,7 +3,7 @@
  *   Q <size> <keys> <ops>                       sequential history
  *   T <size> <nthreads> <keys> <pre> <reqs>     <reqs> served concurrently by <nthreads> workers
  *   keys = machex:time0:ttl,...    size 0 = the table replay_init() makes; n > 0 = same callbacks, n slots
- *   ops  = i<k> replay_insert | r<k> replay_remove | f<k> hash_find | x<k> failed decode (replay.c not
+ *   ops  = i<k> replay_insert | r<k> replay_remove | f<k> hash_find (key built by replay.c) | x<k> failed decode (replay.c not
  *          called) | t<now> clock := now | p<now> clock := now, then the pending timer callback fires
  *   after every op: <result>/<hash_count>/<dump via hash_for_each: machex:t_expired.machex:t_expired...>
  *
@@ -89,6 +89,24 @@ static void table_start (int size) {
     }
 }
 
+/* hash_find for credential #a.  The lookup key is built by replay.c itself: replay_insert into a scratch
+   one-slot table yields the node (mac bytes kept, t_expired) replay.c makes for this credential. */
+static replay_t grabbed;
+static int grab_f (void *data, const void *key, void *arg) { (void) key; (void) arg; grabbed = data; return 1; }
+static int find_key (int a) {
+    hash_t save = replay_hash;
+    hash_t tmp = hash_create (1, (hash_key_f) replay_key_f, (hash_cmp_f) replay_cmp_f, (hash_del_f) replay_free);
+    int found;
+    replay_hash = tmp;
+    replay_insert (&creds[a]);
+    grabbed = NULL;
+    hash_for_each (tmp, grab_f, NULL);
+    replay_hash = save;
+    found = (grabbed != NULL) && (hash_find (replay_hash, grabbed) != NULL);
+    hash_destroy (tmp);
+    return found;
+}
+
 static void table_stop (void) {
     replay_fini ();
     hash_drop_memory ();
@@ -110,13 +128,7 @@ static void q_line (char *arg) {
         switch (tok[0]) {
         case 'i': printf ("%d", (a >= 0 && a < nkeys) ? replay_insert (&creds[a]) : -9); break;
         case 'r': printf ("%d", (a >= 0 && a < nkeys) ? replay_remove (&creds[a]) : -9); break;
-        case 'f': {
-            union replay_node rn;
-            memset (&rn, 0, sizeof rn);
-            rn.data.t_expired = (time_t) (msgs[a].time0 + msgs[a].ttl);
-            memcpy (rn.data.mac, creds[a].mac, sizeof rn.data.mac);
-            printf ("%d", hash_find (replay_hash, &rn) ? 1 : 0);
-            break; }
+        case 'f': printf ("%d", (a >= 0 && a < nkeys) ? find_key ((int) a) : -9); break;
         case 'x': putchar ('-'); break;
         case 't': vnow = (time_t) a; putchar ('-'); break;
         case 'p':
